@@ -81,3 +81,152 @@ pub assume_specification<Tz: chrono::TimeZone>[ <chrono::DateTime<Tz> as chrono:
     ensures r == dt_minute(d);
 pub assume_specification<Tz: chrono::TimeZone>[ <chrono::DateTime<Tz> as chrono::Timelike>::second ](d: &chrono::DateTime<Tz>) -> (r: u32)
     ensures r == dt_second(d);
+
+// ---- file system oracles (A2: answers are functions of their arguments during one verified call) ----
+pub uninterp spec fn fs_rename_result(from: Seq<char>, to: Seq<char>) -> Result<(), std::io::Error>;
+pub uninterp spec fn fs_remove_result(p: Seq<char>) -> Result<(), std::io::Error>;
+pub uninterp spec fn fs_metadata_result(p: Seq<char>) -> Result<std::fs::Metadata, std::io::Error>;
+pub uninterp spec fn metadata_len(m: &std::fs::Metadata) -> u64;
+
+/// how a file was opened
+pub ghost struct OpenFlags { pub write: bool, pub create: bool, pub append: bool, pub truncate: bool }
+pub uninterp spec fn oo_flags(o: &std::fs::OpenOptions) -> OpenFlags;
+/// identity of an open file: the path it was opened at and the flags used
+pub uninterp spec fn file_path(f: &std::fs::File) -> Seq<char>;
+pub uninterp spec fn file_flags(f: &std::fs::File) -> OpenFlags;
+
+pub uninterp spec fn aspath<P>(p: P) -> Seq<char>;
+pub broadcast axiom fn ax_aspath_pathbuf(p: std::path::PathBuf)
+    ensures #[trigger] aspath::<std::path::PathBuf>(p) == pathbuf_view(&p);
+pub broadcast axiom fn ax_aspath_ref_pathbuf(p: &std::path::PathBuf)
+    ensures #[trigger] aspath::<&std::path::PathBuf>(p) == pathbuf_view(p);
+pub broadcast axiom fn ax_aspath_ref_path(p: &std::path::Path)
+    ensures #[trigger] aspath::<&std::path::Path>(p) == path_view(p);
+pub broadcast group group_aspath { ax_aspath_pathbuf, ax_aspath_ref_pathbuf, ax_aspath_ref_path }
+
+pub assume_specification[ std::fs::OpenOptions::new ]() -> (r: std::fs::OpenOptions)
+    ensures oo_flags(&r) == (OpenFlags { write: false, create: false, append: false, truncate: false });
+pub assume_specification[ std::fs::OpenOptions::write ](o: &mut std::fs::OpenOptions, b: bool) -> (r: &mut std::fs::OpenOptions)
+    ensures oo_flags(r) == (OpenFlags { write: b, ..oo_flags(old(o)) });
+pub assume_specification[ std::fs::OpenOptions::create ](o: &mut std::fs::OpenOptions, b: bool) -> (r: &mut std::fs::OpenOptions)
+    ensures oo_flags(r) == (OpenFlags { create: b, ..oo_flags(old(o)) });
+pub assume_specification[ std::fs::OpenOptions::append ](o: &mut std::fs::OpenOptions, b: bool) -> (r: &mut std::fs::OpenOptions)
+    ensures oo_flags(r) == (OpenFlags { append: b, ..oo_flags(old(o)) });
+pub assume_specification[ std::fs::OpenOptions::truncate ](o: &mut std::fs::OpenOptions, b: bool) -> (r: &mut std::fs::OpenOptions)
+    ensures oo_flags(r) == (OpenFlags { truncate: b, ..oo_flags(old(o)) });
+/// `open`: whether it succeeds is not modelled (it may be called several times with the same
+/// arguments in one body); a successful open yields a file identified by path and flags.
+#[verifier::allow(undeclared_external_trait)]
+pub assume_specification<P: AsRef<std::path::Path>>[ std::fs::OpenOptions::open ](o: &std::fs::OpenOptions, p: P) -> (r: Result<std::fs::File, std::io::Error>)
+    ensures r is Ok ==> file_flags(&r->Ok_0) == oo_flags(o) && file_path(&r->Ok_0) == aspath::<P>(p);
+
+#[verifier::allow(undeclared_external_trait)]
+pub assume_specification<P: AsRef<std::path::Path>, Q: AsRef<std::path::Path>>[ std::fs::rename ](from: P, to: Q) -> (r: Result<(), std::io::Error>)
+    ensures r == fs_rename_result(aspath::<P>(from), aspath::<Q>(to));
+#[verifier::allow(undeclared_external_trait)]
+pub assume_specification<P: AsRef<std::path::Path>>[ std::fs::remove_file ](p: P) -> (r: Result<(), std::io::Error>)
+    ensures r == fs_remove_result(aspath::<P>(p));
+#[verifier::allow(undeclared_external_trait)]
+pub assume_specification<P: AsRef<std::path::Path>>[ std::fs::metadata ](p: P) -> (r: Result<std::fs::Metadata, std::io::Error>)
+    ensures r == fs_metadata_result(aspath::<P>(p));
+pub assume_specification[ std::fs::Metadata::len ](m: &std::fs::Metadata) -> (r: u64)
+    ensures r == metadata_len(m);
+
+// ---- the writer shim (rule R1): Box<dyn Write + Send> of state.rs -----------------------------------
+/// What has been handed to a writer object since it was created, and how much of it is known to be flushed.
+pub ghost struct WView { pub written: Seq<u8>, pub flushed: nat, pub flush_calls: nat }
+/// What a writer object is attached to.
+pub ghost struct WSrc { pub path: Seq<char>, pub flags: OpenFlags, pub buffered: Option<usize> }
+
+#[verifier::external_body]
+pub struct VWriter { _w: Box<dyn std::io::Write + Send> }
+
+pub trait VWritable: Sized { spec fn wsrc(&self) -> WSrc; }
+impl VWritable for std::fs::File {
+    open spec fn wsrc(&self) -> WSrc { WSrc { path: file_path(self), flags: file_flags(self), buffered: None } }
+}
+#[verifier::external_type_specification]
+#[verifier::external_body]
+#[verifier::reject_recursive_types(W)]
+pub struct ExBufWriter<W: ?Sized + std::io::Write>(std::io::BufWriter<W>);
+pub uninterp spec fn bufwriter_inner<W: std::io::Write>(b: &std::io::BufWriter<W>) -> W;
+pub uninterp spec fn bufwriter_cap<W: std::io::Write>(b: &std::io::BufWriter<W>) -> usize;
+impl VWritable for std::io::BufWriter<std::fs::File> {
+    open spec fn wsrc(&self) -> WSrc {
+        WSrc { path: file_path(&bufwriter_inner(self)), flags: file_flags(&bufwriter_inner(self)), buffered: Some(bufwriter_cap(self)) }
+    }
+}
+#[verifier::allow(undeclared_external_trait)]
+pub assume_specification<W: std::io::Write>[ std::io::BufWriter::<W>::with_capacity ](cap: usize, f: W) -> (r: std::io::BufWriter<W>)
+    ensures bufwriter_inner(&r) == f, bufwriter_cap(&r) == cap;
+
+pub open spec fn is_prefix(a: Seq<u8>, b: Seq<u8>) -> bool {
+    a.len() <= b.len() && forall|i: int| 0 <= i < a.len() ==> a[i] == b[i]
+}
+
+impl VWriter {
+    pub uninterp spec fn view(&self) -> WView;
+    pub uninterp spec fn src(&self) -> WSrc;
+
+    /// R1b: `Box::new(w)` at a writer-typed position
+    #[verifier::external_body]
+    pub fn from_write<W: VWritable>(w: W) -> (r: VWriter)
+        ensures r@ == (WView { written: Seq::<u8>::empty(), flushed: 0, flush_calls: 0 }), r.src() == w.wsrc(),
+    { unimplemented!() }
+
+    /// `Write::write_all` (A1): all of `buf` is appended or an error is returned after a prefix of it
+    #[verifier::external_body]
+    pub fn write_all(&mut self, buf: &[u8]) -> (r: Result<(), std::io::Error>)
+        ensures
+            final(self).src() == old(self).src(),
+            final(self)@.flush_calls == old(self)@.flush_calls,
+            final(self)@.flushed >= old(self)@.flushed,
+            r is Ok ==> final(self)@.written == old(self)@.written + buf@,
+            r is Err ==> is_prefix(old(self)@.written, final(self)@.written) && is_prefix(final(self)@.written, old(self)@.written + buf@),
+    { unimplemented!() }
+
+    /// `Write::flush` (A1)
+    #[verifier::external_body]
+    pub fn flush(&mut self) -> (r: Result<(), std::io::Error>)
+        ensures
+            final(self).src() == old(self).src(),
+            final(self)@.written == old(self)@.written,
+            final(self)@.flush_calls == old(self)@.flush_calls + 1,
+            final(self)@.flushed >= old(self)@.flushed,
+            r is Ok ==> final(self)@.flushed == final(self)@.written.len(),
+    { unimplemented!() }
+}
+
+// ---- combinators on Option / Result that vstd does not specify (closure contracts flow through) ------
+pub assume_specification<T, F: FnOnce() -> Option<T>>[ Option::<T>::or_else ](o: Option<T>, f: F) -> (r: Option<T>)
+    requires o is None ==> f.requires(()),
+    ensures o is Some ==> r == o, o is None ==> f.ensures((), r);
+pub assume_specification<T, E, F2, O: FnOnce(E) -> Result<T, F2>>[ Result::<T, E>::or_else ](res: Result<T, E>, op: O) -> (r: Result<T, F2>)
+    requires res is Err ==> op.requires((res->Err_0,)),
+    ensures res is Ok ==> r is Ok && r->Ok_0 == res->Ok_0, res is Err ==> op.ensures((res->Err_0,), r);
+pub assume_specification<T, E, F: FnOnce(E) -> T>[ Result::<T, E>::unwrap_or_else ](res: Result<T, E>, op: F) -> (r: T)
+    requires res is Err ==> op.requires((res->Err_0,)),
+    ensures res is Ok ==> r == res->Ok_0, res is Err ==> op.ensures((res->Err_0,), r);
+pub assume_specification[ std::time::Duration::from_secs ](secs: u64) -> (r: std::time::Duration);
+
+// ---- equality on std::io::ErrorKind (fieldless enum; `==` / `!=` are the derived comparisons) --------
+pub mod cmp_axioms {
+    use super::*;
+    use vstd::std_specs::cmp::PartialEqSpec;
+    pub broadcast axiom fn ax_errorkind_eq(a: std::io::ErrorKind, b: std::io::ErrorKind)
+        ensures #[trigger] a.eq_spec(&b) == (a == b);
+    pub broadcast axiom fn ax_errorkind_obeys()
+        ensures #[trigger] <std::io::ErrorKind as PartialEqSpec>::obeys_eq_spec();
+    pub broadcast group group_errorkind_eq { ax_errorkind_eq, ax_errorkind_obeys }
+}
+
+// ---- printing (effects on stdout/stderr are not modelled) -------------------------------------------
+pub assume_specification[ std::io::_print ](_0: std::fmt::Arguments<'_>);
+pub assume_specification[ std::io::_eprint ](_0: std::fmt::Arguments<'_>);
+#[verifier::external_type_specification]
+#[verifier::external_body]
+pub struct ExPathDisplay<'a>(std::path::Display<'a>);
+pub assume_specification<'a>[ std::path::Path::display ](p: &'a std::path::Path) -> (r: std::path::Display<'a>);
+/// formatting a `std::path::Display` has no precondition (vstd's `fmt_req`)
+pub broadcast axiom fn ax_fmt_req_all_path_display<'a>()
+    ensures #[trigger] vstd::std_specs::fmt::fmt_req_all::<std::path::Display<'a>>();
